@@ -289,6 +289,7 @@ pub fn check_case(c: &Case, st: &mut Stats, shard: usize) -> Check {
         _ => "sigs-dropped",
     };
     let tp = c.tparam as usize;
+    let covenants_before_tampering = tx.covenants.clone();
     match tamper {
         "sig-bit-flip" => {
             let slots: Vec<usize> = tx.sigs.iter().enumerate().filter(|(_, s)| !s.is_empty()).map(|x| x.0).collect();
@@ -387,7 +388,27 @@ pub fn check_case(c: &Case, st: &mut Stats, shard: usize) -> Check {
         st.exclude("fee-not-covering");
         return Ok(());
     }
-    let got = match w.apply_batch(std::slice::from_ref(&tx)) {
+    // half of the spends whose covenant list was tampered with are offered together with a sibling: an unrelated
+    // faucet transaction that carries (without needing them) exactly the covenants the spend had before - a covenant
+    // counts only when the spending transaction itself carries it
+    let mut offered = vec![tx.clone()];
+    if tamper.starts_with("covenant-") && tp % 2 == 1 {
+        let mut sib = Transaction::new(melstructs::TxKind::Faucet);
+        sib.covenants = covenants_before_tampering.clone();
+        sib.data = vec![0x51, (tp % 251) as u8].into();
+        sib.outputs.push(CoinData { covhash: CovSpec::True.hash(), value: CoinValue(1), denom: Denom::Mel, additional_data: Default::default() });
+        let min = refstf::min_fee(&sib, 100);
+        if min < (1u128 << 90) {
+            sib.fee = CoinValue(min + 10);
+            if tp % 4 == 1 {
+                offered.insert(0, sib);
+            } else {
+                offered.push(sib);
+            }
+            st.class("tampered-spend-next-to-a-sibling-carrying-its-covenants");
+        }
+    }
+    let got = match w.apply_batch(&offered) {
         O::Ok(()) => true,
         O::Rejected(_) => false,
         O::Panicked(_) => {
@@ -484,7 +505,7 @@ pub fn run(ctx: &Ctx) -> (Outcome, String, Option<bool>) {
             r
         },
     );
-    let rule = "Generated: 1-5 coins (one spend in ten: 24-70 coins from 2-4 families, many sharing a covenant hash) locked by covenants from the families legacy signature (slot 0), new signature (slot = input position), hash-lock on tx.data, time-lock on the previous header's height, creation-height bound, spender-index bound, value bound, denomination + additional-data bound, parent-output-index bound, constant false / empty stack / non-integer result / failing program, negated signature checks on abnormal operands, undecodable bytes, and type-aware random programs; created by one funding transaction at height >= 1 on Custom02/Custom08/Testnet, then spent together with a fee-paying coin by one transaction (ordinary in 7 of 12 cases, otherwise of kind faucet, swap, deposit or withdrawal) with the inputs in a generated order, and tampered in 9 ways (signature bit flip, wrong key, swapped slots, signatures dropped, outputs or data changed after signing, covenant omitted / replaced by garbage / by another program). Balance and fee are valid by construction. Oracle: apply_tx accepts <=> for every input the transaction carries bytes hashing to the coin's covenant hash that decode and that RefVM evaluates to a truthy value on (transaction, that input's id, value, denomination, additional data, creation height, position, previous header). Non-trivial = a spend of >=2 inputs whose verdicts differ, or any tampered spend; distinct by (families in input order, tamper, verdict vector).".to_string();
+    let rule = "Generated: 1-5 coins (one spend in ten: 24-70 coins from 2-4 families, many sharing a covenant hash) locked by covenants from the families legacy signature (slot 0), new signature (slot = input position), hash-lock on tx.data, time-lock on the previous header's height, creation-height bound, spender-index bound, value bound, denomination + additional-data bound, parent-output-index bound, constant false / empty stack / non-integer result / failing program, negated signature checks on abnormal operands, undecodable bytes, and type-aware random programs; created by one funding transaction at height >= 1 on Custom02/Custom08/Testnet, then spent together with a fee-paying coin by one transaction (ordinary in 7 of 12 cases, otherwise of kind faucet, swap, deposit or withdrawal) with the inputs in a generated order, and tampered in 9 ways (signature bit flip, wrong key, swapped slots, signatures dropped, outputs or data changed after signing, covenant omitted / replaced by garbage / by another program). Half of the spends with a tampered covenant list are offered in one batch with an unrelated faucet transaction that carries the untampered covenants. Balance and fee are valid by construction. Oracle: apply_tx accepts <=> for every input the transaction carries bytes hashing to the coin's covenant hash that decode and that RefVM evaluates to a truthy value on (transaction, that input's id, value, denomination, additional data, creation height, position, previous header). Non-trivial = a spend of >=2 inputs whose verdicts differ, or any tampered spend; distinct by (families in input order, tamper, verdict vector).".to_string();
     (out, rule, None)
 }
 
